@@ -571,6 +571,12 @@ def _applied(b, by_key, fop, _depth=0):
         defs = [st for bb in b['blocks'] for st in bb['stmts'] if st['k'] == 'assign' and st['place'] == {'l': cl, 'p': []}]
         if len(defs) == 1 and defs[0]['rv']['k'] == 'aggregate' and defs[0]['rv'].get('agg') == 'closure' and defs[0]['rv']['closure'] in by_key:
             return ('closure', defs[0]['rv']['closure'], fop)
+        # `f()` on a closure held in a local: Fn::call(&f, ..) / FnMut::call_mut(&mut f, ..) — a reference to the closure value
+        if len(defs) == 1 and defs[0]['rv']['k'] == 'ref' and not defs[0]['rv']['place']['p'] and _depth < 4:
+            tl = defs[0]['rv']['place']['l']
+            tdefs = [st for bb in b['blocks'] for st in bb['stmts'] if st['k'] == 'assign' and st['place'] == {'l': tl, 'p': []}]
+            if len(tdefs) == 1 and tdefs[0]['rv']['k'] == 'aggregate' and tdefs[0]['rv'].get('agg') == 'closure' and tdefs[0]['rv']['closure'] in by_key:
+                return ('closure', tdefs[0]['rv']['closure'], fop)
         # the closure value handed on through a plain move (parameter of an inlined helper)
         if len(defs) == 1 and defs[0]['rv']['k'] == 'use' and defs[0]['rv']['op'].get('k') == 'move' and not defs[0]['rv']['op']['place']['p'] and _depth < 4:
             r = _applied(b, by_key, defs[0]['rv']['op'], _depth + 1)
@@ -1437,7 +1443,10 @@ def expand_array_try_from(doc):
 #    still built, but nothing can call it — it is never handed to a call, stored, or returned.  Its body is no body of its
 #    own any more (its statements live on, inlined, in the parent, where the rules look at them).
 def drop_dead_closures(doc):
-    pinned = pinned_keys()
+    crate = (doc.get('meta') or {}).get('crate', 'hpke')
+    pinned = set(pinned_keys().get(crate, []))
+    if not pinned:
+        return doc
     bodies = doc['bodies']
     by_key = {b['key']: b for b in bodies}
     built = {}     # closure key -> live?
@@ -1459,11 +1468,13 @@ def drop_dead_closures(doc):
                     [f for st in blk['stmts'] if st.get('k') == 'assign' and st['rv'].get('k') == 'aggregate' for f in st['rv']['fields']]:
                 if isinstance(x, dict) and x.get('k') == 'const' and 'closure' in x:
                     txt_live.add(x['closure'])
-    gone = set()
+    gone, dead = set(), set()
     for k, live in built.items():
-        if live or k in pinned or k in txt_live or k not in by_key:
+        if live or k in txt_live or k not in by_key:
             continue
-        gone.add(k)
+        # a key of the pinned tree stays a body (the body sets of the feature subsets are compared by key); it is only
+        # marked: nothing can run it, its statements are looked at where they were inlined
+        (dead if k in pinned else gone).add(k)
     # nested closures of a dropped closure go with it
     for b in bodies:
         if any(b['key'].startswith(g + '::') for g in gone) and b['key'] not in pinned:
@@ -1471,6 +1482,7 @@ def drop_dead_closures(doc):
     if gone:
         doc['bodies'] = [b for b in bodies if b['key'] not in gone]
     doc.setdefault('meta', {})['closures_dropped'] = sorted(gone)
+    doc['meta']['closures_dead'] = sorted(dead)
     return doc
 
 
